@@ -105,7 +105,22 @@ pub fn attach(t: &mut Toks) -> String {
         // the first subscriber creates the subscription
         let body = serde_json::to_string(SQL).unwrap();
         let first = tokio::spawn({ let b = body.clone(); let rx = stop_rx.clone(); async move { stream(addr, "POST", "/v1/subscriptions", &b, rx).await } });
-        tokio::time::sleep(Duration::from_millis(900)).await;   // initial query done, loop running
+        // wait until the subscription exists and its loop runs (it answers a batch cut), however
+        // loaded the machine is; then a short pause for the creator's end-of-query to go out
+        {
+            let t0 = Instant::now();
+            loop {
+                let ids: Vec<uuid::Uuid> = srv.kit_agent.subs_manager().get_handles().keys().cloned().collect();
+                if !ids.is_empty() && crate::util::flush_loops(&ids, 5).await {
+                    break;
+                }
+                if t0.elapsed() > Duration::from_secs(60) {
+                    break;
+                }
+                tokio::time::sleep(Duration::from_millis(20)).await;
+            }
+            tokio::time::sleep(Duration::from_millis(300)).await;
+        }
         ph::BCAST_DELAY_MS.store(delay, SeqCst);
         let mut next_row = 1i64;
         let mut handles: Vec<tokio::task::JoinHandle<(u16, Option<String>, Vec<String>, bool)>> = vec![];
